@@ -169,6 +169,10 @@ outer:
 				continue outer
 			}
 		}
+		if pcap.PacketCount == 0 {
+			// nothing to load; its zero timestamps would be taken for "no further pcap" below
+			continue
+		}
 		packetIndexes := bestSnapshot.referencedPackets[pcap.Filename]
 		if !bestSnapshot.timestamp.After(pcap.PacketTimestampMax) || len(packetIndexes) != 0 {
 			allNeededPcaps = append(allNeededPcaps, pcap)
